@@ -78,7 +78,7 @@ EXTRA = {
  "C10": "lengths around 2^16..2^20, special tokens, class runs, predecessors that panic or fail",
  "C11": "enumerated extreme textures (the symbols with the largest penalty terms: flat, mask-pattern, finder-ratio fills) in all listed versions",
  "C12": "image geometry over the whole finite range, margins on 10^k / 2^k boundaries up to 100 000, renderer warm-up perturbing every last-value-wins option or happening before the last layer, thread predecessors (multi-layer / failing render)",
- "C13": "wide margins on 10^k / 2^k boundaries, fits below the symbol size, 0..2 opaque layers under the top layer (painter's model), renderer warm-up / thread predecessors",
+ "C13": "wide margins on 10^k / 2^k boundaries, fits below the symbol size, 0..2 opaque layers under the top layer (painter's model), embedded image in a square frame (only cells clear of frame and image are asserted), renderer warm-up / thread predecessors",
  "C14": "overwrite pairs and unfit modes in setter histories, Repeat ops (2^8 / 2^10 builds in a row), failing renders, cold reference process under 12 generated environments, cold concurrent rounds (first use of the crate under contention)",
  "C15": "map of the REPORTED version; Clone copies byte-identical; re-entrant callback (builds and renders inside the callback); raster callback observer",
  "C16": "locale / terminal environment phases (stored in replays), print() in a child process, edit-and-render-again on the same object and its clone, predecessor renders on the thread (failing / other symbol)",
